@@ -116,6 +116,9 @@ def call(S, op, g, rng=None):
                     S.add_simplex(members(op["m"]), idx=E(op["id"]), **A(op["a"], "e"))
             elif name == "add_simplices_from":
                 S.add_simplices_from(ebunch(op["fmt"], op["items"]), max_order=mo(op["n2"]), **A(op["a"], "e"))
+            elif name in ("add_weighted_simplices_from", "add_weighted_edges_from"):
+                eb = [[N(x) for x in it["m"]] + [g.attr_value(it["w"], "e")] for it in op["items"]]
+                getattr(S, name)(eb, max_order=mo(op["n2"]), weight=ATTR_KEYS[op["k"]], **A(op["a"], "e"))
             elif name == "remove_simplex_id":
                 S.remove_simplex_id(E(op["e"]))
             elif name == "remove_simplex_ids_from":
@@ -173,6 +176,7 @@ def rand_op(rng, j, nn=6):
         ("remove_simplex_id", 6), ("remove_simplex_ids_from", 3), ("close", 1), ("cleanup", 1.5), ("clear", 0.2),
         ("convert_labels_to_integers", 0.6), ("largest_connected_hypergraph", 0.8), ("add_node_to_edge", 0.3),
         ("add_edge", 1), ("add_edges_from", 1), ("remove_edge", 0.7), ("remove_edges_from", 0.5),
+        ("add_weighted_simplices_from", 1.5), ("add_weighted_edges_from", 0.4),
         ("set_net_attr", 0.3),
     ]
     name = rng.choices([n for n, _ in names], [w for _, w in names])[0]
@@ -219,6 +223,13 @@ def rand_op(rng, j, nn=6):
                     u.append(it)
             its = u
         return mkop(name, fmt=fmt, items=its, n2=rng.choice([-1, -1, 0, 1, 2, 2, 3]), a=rand_attr(rng))
+    if name in ("add_weighted_simplices_from", "add_weighted_edges_from"):
+        its = []
+        for k in range(rng.choice([0, 1, 2, 3])):
+            m = [x for x in dict.fromkeys(simplex(False)) if x != -1]
+            its.append(item(m=m, w=[0, rng.randrange(1, 5)]))
+        # keyword attributes must not clash with the weight parameter's own name
+        return mkop(name, items=its, k=2, n2=rng.choice([-1, -1, 1, 2]), a=[p for p in rand_attr(rng) if p[0] != 2])
     if name in ("remove_simplex_id", "remove_edge"):
         return mkop(name, e=anyedge())
     if name in ("remove_simplex_ids_from", "remove_edges_from"):
